@@ -179,7 +179,15 @@ func (l *queryLog) checkAndRotate(ctx context.Context) {
 	}()
 
 	oldest, err := l.readFileFirstTimeValue(ctx)
-	if err != nil && !errors.Is(err, os.ErrNotExist) {
+	if errors.Is(err, os.ErrNotExist) {
+		// There is no current log file, so there is nothing to rotate.  Do not
+		// go on with a zero oldest time: a flush may create the file right
+		// after this check, and renaming that new file would replace the
+		// previous rotated file, which is not due yet.
+		l.logger.DebugContext(ctx, "not rotating", "reason", "no log file")
+
+		return
+	} else if err != nil {
 		l.logger.ErrorContext(ctx, "reading oldest record for rotation", slogutil.KeyError, err)
 
 		return
